@@ -83,7 +83,9 @@ ENTRIES = {
             "what Python does to a plain list/set (order and repetitions included) and the graph and all inverse/super "
             "fields must contain the closure of the current elements. A second family starts from contents INFERRED through the "
             "inverse property, runs every prefix of <=2 (thorough 3) operations incl. removals and then writes one more element "
-            "in every equivalent way (7 for lists, 5 for sets): all ways must leave the same contents.",
+            "in every equivalent way (7 for lists, 5 for sets): all ways must leave the same contents. A third family runs all "
+            "sequences of <=2 (3) writes on a list field whose own inferences append to it (transitive property) against Python's "
+            "operation on the contents before the write.",
             "Retraction (removal of consequences of elements that left the field) is outside the statement and not checked.",
             "DESIGN.md section 3 C16"),
     "C20": ("model_checking",
